@@ -17,7 +17,7 @@ package session
 //	r <key> <proto> <sid> <okey>   Release    -> ok
 //	i <key> <proto> <sid> <okey>   IsOwner    -> T | F
 //	l <key>                        Lookup     -> nil | o:...
-//	s <key>                        (seq only) index of the shard shardFor selects -> s<i>
+//	s <key>                        (seq only) the shard shardFor selects, numbered in first-seen order within the case -> s<i>
 //	m <svlan> <cvlan> <machex>     (seq only) MakeTupleKey -> k:<key>
 //	v                              (seq only) re-read the Owner behind the last non-nil pointer returned by Claim/Lookup -> v:<owner>
 //	w                              (seq only) overwrite that Owner through the pointer (must not reach the table) -> w
@@ -163,13 +163,9 @@ func c17Apply(r *Registry, o c17Op) (out string) {
 		}
 		return c17ShowOwner(pr)
 	case 's':
-		sh := r.shardFor(o.key)
-		for i := range r.shards {
-			if r.shards[i] == sh {
-				return "s" + strconv.Itoa(i)
-			}
-		}
-		return "s?"
+		// the shard is identified by the order in which this case first saw it: the harness never looks at the
+		// layout of Registry.shards, only at what shardFor returns
+		return "s" + strconv.Itoa(c17ShardID(r.shardFor(o.key)))
 	case 'm':
 		s, _ := strconv.Atoi(o.raw[0])
 		c, _ := strconv.Atoi(o.raw[1])
@@ -179,18 +175,24 @@ func c17Apply(r *Registry, o c17Op) (out string) {
 		}
 		return "k:" + c17ShowKey(MakeTupleKey(uint16(s), uint16(c), mac))
 	case 'n':
+		// every shard any tuple of this case maps to: number of stored tuples, each in the shard shardFor names
 		n := 0
-		for i := range r.shards {
-			r.shards[i].mu.RLock()
-			for k, v := range r.shards[i].owned {
-				_ = v
+		seen := map[*shard]bool{}
+		for _, k0 := range c17Keys {
+			sh := r.shardFor(k0)
+			if sh == nil || seen[sh] {
+				continue
+			}
+			seen[sh] = true
+			sh.mu.RLock()
+			for k := range sh.owned {
 				n++
-				if r.shardFor(k) != r.shards[i] {
-					r.shards[i].mu.RUnlock()
+				if r.shardFor(k) != sh {
+					sh.mu.RUnlock()
 					return "BADSHARD"
 				}
 			}
-			r.shards[i].mu.RUnlock()
+			sh.mu.RUnlock()
 		}
 		return "n" + strconv.Itoa(n)
 	}
@@ -199,10 +201,24 @@ func c17Apply(r *Registry, o c17Op) (out string) {
 
 // pointer most recently returned by Claim/Lookup in a seq case (value-vs-alias observations v, w)
 var c17Last *Owner
+var c17Keys []TupleKey // tuples named so far in the current seq case
+var c17Shards []*shard // distinct shards in first-seen order (s op)
+
+func c17ShardID(sh *shard) int {
+	for i, x := range c17Shards {
+		if x == sh {
+			return i
+		}
+	}
+	c17Shards = append(c17Shards, sh)
+	return len(c17Shards) - 1
+}
+
 var c17Track bool // only sequential cases remember pointers (workers of concurrent cases must not share it)
 
 func c17Seq(f []string) string {
 	c17Last = nil
+	c17Keys, c17Shards = nil, nil
 	c17Track = true
 	defer func() { c17Track = false }()
 	r := NewRegistry()
@@ -210,6 +226,10 @@ func c17Seq(f []string) string {
 	for p := 1; p < len(f); {
 		var o c17Op
 		o, p = c17ParseOp(f, p)
+		switch o.kind {
+		case 'c', 'r', 'i', 'l', 's':
+			c17Keys = append(c17Keys, o.key)
+		}
 		res = append(res, c17Apply(r, o))
 	}
 	if len(res) == 0 {
@@ -273,10 +293,14 @@ func c17ConcOnce(f []string, seed int64) string {
 	var clock int64
 	start := make(chan struct{})
 	var ready, done sync.WaitGroup
+	// only the disturber looks the shards up beforehand; without it the workers' first operations are the
+	// first use of the registry (and of each shard) and race with each other
 	used := map[*shard]bool{}
-	for t := 0; t < nt; t++ {
-		for _, o := range progs[t] {
-			used[r.shardFor(o.key)] = true
+	if disturb {
+		for t := 0; t < nt; t++ {
+			for _, o := range progs[t] {
+				used[r.shardFor(o.key)] = true
+			}
 		}
 	}
 	for t := 0; t < nt; t++ {
